@@ -172,3 +172,46 @@ func VerifC14Rejected() {
 		rt.Assert(len(rec.evs) == want && tc.Table("Root").Len() == want, "C14: a change that is ignored delivers no event")
 	}
 }
+
+// VerifC14UpdateV1: notifications in the RFC 7047 `update` encoding (old rows carry only the columns that changed):
+// insert, then a change of one column, then a delete; the old model of the update event is the previous state of the
+// row in every column, and the delete event carries the last state.
+func VerifC14UpdateV1() {
+	dbm := fix.DBModelS1()
+	tc, _ := cache.NewTableCache(dbm, nil, nil)
+	rec := &recorder{}
+	tc.AddEventHandler(rec.handler())
+	stop := make(chan struct{})
+	go tc.Run(stop)
+	name, num := rt.String(), rt.Int()
+	first := ovsdb.Row{"name": name, "num": num, "mode": "a"}
+	rt.Assert(tc.Populate(ovsdb.TableUpdates{"Root": ovsdb.TableUpdate{fix.U1: &ovsdb.RowUpdate{New: &first}}}) == nil, "C14: the insert applies")
+	// change one of the two columns; the old row names only that column
+	var oldRow, newRow ovsdb.Row
+	name2, num2 := name, num
+	if rt.Choose(2) == 0 {
+		num2 = rt.Int()
+		rt.Assume(num2 != num)
+		oldRow = ovsdb.Row{"num": num}
+	} else {
+		name2 = rt.String()
+		rt.Assume(name2 != name)
+		oldRow = ovsdb.Row{"name": name}
+	}
+	newRow = ovsdb.Row{"name": name2, "num": num2, "mode": "a"}
+	rt.Assert(tc.Populate(ovsdb.TableUpdates{"Root": ovsdb.TableUpdate{fix.U1: &ovsdb.RowUpdate{Old: &oldRow, New: &newRow}}}) == nil, "C14: the update applies")
+	last := ovsdb.Row{"name": name2, "num": num2, "mode": "a"}
+	rt.Assert(tc.Populate(ovsdb.TableUpdates{"Root": ovsdb.TableUpdate{fix.U1: &ovsdb.RowUpdate{Old: &last}}}) == nil, "C14: the delete applies")
+	rt.RunPending()
+	rt.Reach("dispatched")
+	rt.Assert(len(rec.evs) == 3 && rec.evs[0].kind == 0 && rec.evs[1].kind == 1 && rec.evs[2].kind == 2, "C14: add, update, delete are delivered in order")
+	if len(rec.evs) != 3 {
+		return
+	}
+	rt.Assert(rec.evs[0].new.Name == name && rec.evs[0].new.Num == num, "C14: the add event carries the inserted row")
+	o, n := rec.evs[1].old, rec.evs[1].new
+	rt.Assert(o != nil && o.UUID == fix.U1 && o.Name == name && o.Num == num, "C14: an update event's old model equals the previous state of the row (every column, also those the notification's old row omits)")
+	rt.Assert(n != nil && n.Name == name2 && n.Num == num2, "C14: an update event's new model is the new state of the row")
+	d := rec.evs[2].old
+	rt.Assert(d != nil && d.Name == name2 && d.Num == num2, "C14: a delete event carries the last state of the row")
+}
